@@ -59,6 +59,26 @@ def run_script(script, env, labels, c09, stop_at_first=True):
     oracle of c09.py applied to every call on its own (soft = only the instance-attribute report)."""
     V = {}
     records, findings = [], []
+    kept = []       # results of earlier calls: [step, kind, the returned list object, its Event objects, their snapshots]
+
+    def snap(e):
+        return json.dumps([e.get("id"), str(e.get("timestamp")), str(e.get("duration")), e.get("data")], sort_keys=True, default=str)
+
+    def refresh(objs):
+        """the script itself (or period_union's documented clearing of its caller's events) changed these objects"""
+        ids = {id(o) for o in objs}
+        for rec in kept:
+            rec[4] = [snap(e) if id(e) in ids else s0 for e, s0 in zip(rec[3], rec[4])]
+
+    def changed_results():
+        for step0, kind0, lst, objs, snaps in kept:
+            if len(lst) != len(objs) or any(a is not b for a, b in zip(lst, objs)):
+                return step0, kind0, "the list returned by the call of step %d was resized or re-filled later" % step0
+            for e, s0 in zip(objs, snaps):
+                if snap(e) != s0:
+                    return step0, kind0, "an event returned by the call of step %d was %s and is now %s although the caller " \
+                                         "never touched it" % (step0, s0, snap(e))
+        return None
     for k, st in enumerate(script):
         op = st[0]
         try:
@@ -71,6 +91,9 @@ def run_script(script, env, labels, c09, stop_at_first=True):
                 a, b = V[an], V[bn]
                 res, va, vb, mod, ret = c09.observe_call(op, a, b, env.fn(op, via), labels, strict=True)
                 V[out] = ret if isinstance(ret, list) else list(ret)
+                if op == "union":
+                    refresh(a + b)          # the returned caller events lose their data (the function's documented frame)
+                kept.append([k, op, V[out], list(V[out]), [snap(e) for e in V[out]]])
                 records.append({"step": k, "kind": op, "via": via, "va": va, "vb": vb, "res": res, "mod": mod})
                 soft = bool(mod) and "instance attributes" in mod
                 if op == "isect":
@@ -80,6 +103,10 @@ def run_script(script, env, labels, c09, stop_at_first=True):
                 else:
                     bad = c09.oracle_union(va, vb, res, labels)
                     soft = False
+                if bad is None:
+                    ch = changed_results()
+                    if ch:
+                        bad = "earlier-result-intact: %s (the change happened during the call of step %d)" % (ch[2], k)
                 if bad:
                     findings.append((k, bad.split(":")[0], bad, soft and bad.startswith("not-modified")))
                     if stop_at_first and not findings[-1][3]:
@@ -89,6 +116,7 @@ def run_script(script, env, labels, c09, stop_at_first=True):
                 if not lst or st[2] >= len(lst):
                     continue
                 e = lst[st[2]]
+                shared = [o for rec in kept for o in rec[3] if o is not e and o.get("data") is e.get("data")] if op == "put" else []
                 if op == "dur":
                     e.duration = timedelta(microseconds=st[3])
                 elif op == "ts":
@@ -97,9 +125,16 @@ def run_script(script, env, labels, c09, stop_at_first=True):
                     e.data[st[3]] = copy.deepcopy(st[4])
                 else:
                     e.data = copy.deepcopy(st[3])
+                refresh([e])
+                if shared and not findings:
+                    findings.append((k, "earlier-result-intact", "earlier-result-intact: writing a key into the data of ONE returned event "
+                                     "changed %d other returned event(s): they share one data dict" % len(shared), False))
+                    if stop_at_first:
+                        break
             elif op in ("categorize", "tag"):
                 if st[1] in V:
                     getattr(env.pkg, op)(V[st[1]], [])
+                    refresh(V[st[1]])
             elif op == "copy":
                 if st[2] in V:
                     V[st[1]] = copy.deepcopy(V[st[2]])
@@ -353,7 +388,7 @@ def run(ck, runner, labels, wire, checks, wire_events, canon_out, empty):
             small = shrink_script(script, fails) if len(ck.violations) < 3 else script
             f2 = runner.run(small)[1]
             hit = next(((kk, m) for kk, c, m, s in f2 if c == clause and s == soft), (k, msg))
-            kind = small[hit[0]][0] if hit[0] < len(small) and small[hit[0]][0] in CALLS else "isect"
+            kind = next((s_[0] for s_ in reversed(small[:hit[0] + 1]) if s_[0] in CALLS), "isect")
             ncall = sum(1 for s in small[:hit[0] + 1] if s[0] in CALLS)
             ck.failing_input("C09:%s:%s" % (kind, clause),
                              "%s, call number %d of a sequence of calls in one process (step %d of the script): %s" % (
